@@ -78,6 +78,16 @@ func init() {
 			return err == nil, fmt.Sprint(err)
 		})
 	}
+	probes["O89"] = func() (bool, string) {
+		return guard(func() (bool, string) {
+			empty := ""
+			to := struct {
+				S *string `validate:"required"`
+			}{S: &empty}
+			err := ucfg.New().Unpack(&to)
+			return err == nil, fmt.Sprint(err)
+		})
+	}
 	probes["O88"] = func() (bool, string) {
 		return guard(func() (bool, string) {
 			var to struct{ I interface{} }
